@@ -316,7 +316,9 @@ def refract(n, nprime, S, r):
     # broadcast the square root to 2D, so that fewer very expensive sqrt ops are done
     # then, in the second term, broadcast cosI for compatability with S and r
     # since it is needed there
-    first_term = np.sqrt(1 - musq * (1 - cosIsq))[:, np.newaxis] * r
+    # the normal (-Fx, -Fy, 1) always points to +z; a ray travelling toward -z (after a mirror) has cosI < 0
+    # and must leave on the side it was heading to, so the root takes the sign of cosI
+    first_term = np.copysign(np.sqrt(1 - musq * (1 - cosIsq)), cosI)[:, np.newaxis] * r
     second_term = mu * (S - cosI[:, np.newaxis] * r)
     return first_term + second_term
 
